@@ -67,14 +67,15 @@ type Roles struct {
 	// job fields
 	FJobStatus, FJobWg, FJobQueue, FJobAckId, FJobId, FJobData string
 
-	Step           *Func    // the dispatcher step (dequeues)
-	HandOff        *Func    // sends a job to a pool node
-	NodeFactory    *Func    // creates a node and spawns its goroutine
-	Completion     *Func    // literal served by the pool goroutine
-	DispLoop       *Func    // dispatcher goroutine literal
-	SpawnDisp      *Func    // function containing the go statement of DispLoop
-	FDispDone      string   // field holding the channel the dispatcher goroutine closes when it exits ("" if none)
-	DoneChanFields []string // chan struct{} fields of the worker that are never sent on (closed to announce an exit)
+	Step           *Func         // the dispatcher step (dequeues)
+	HandOff        *Func         // sends a job to a pool node
+	NodeFactory    *Func         // creates a node and spawns its goroutine
+	Completion     *Func         // literal served by the pool goroutine
+	DispLoop       *Func         // dispatcher goroutine literal
+	DispGoCall     *ast.CallExpr // the call of the go statement when the dispatcher is a declared function (nil for a literal)
+	SpawnDisp      *Func         // function containing the go statement of DispLoop
+	FDispDone      string        // field holding the channel the dispatcher goroutine closes when it exits ("" if none)
+	DoneChanFields []string      // chan struct{} fields of the worker that are never sent on (closed to announce an exit)
 	Start          *Func
 	Notify         *Func
 	SendErr        *Func
@@ -440,6 +441,8 @@ func resolveRoles(p *Prog) *Roles {
 		return g
 	}
 	var steps, dispLits []*Func
+	spawnerOf := map[*Func]*Func{}
+	goCallOf := map[*Func]*ast.CallExpr{}
 	for _, f := range p.pkgFuncs(modPath) {
 		if f.Body == nil {
 			continue
@@ -449,11 +452,18 @@ func resolveRoles(p *Prog) *Roles {
 			if !ok {
 				return true
 			}
-			lit, ok := ast.Unparen(gs.Call.Fun).(*ast.FuncLit)
-			if !ok || p.byLit[lit] == nil {
+			var L *Func
+			if lit, ok := ast.Unparen(gs.Call.Fun).(*ast.FuncLit); ok {
+				L = p.byLit[lit]
+			} else if g := p.byObj[resolveCallee(f.Info(), gs.Call).Key]; g != nil && g.Lib && g.Pkg.PkgPath == modPath {
+				// `go w.eventLoop(signal, done)`: the goroutine body is a declared method
+				L = g
+				spawnerOf[g] = f
+				goCallOf[g] = gs.Call
+			}
+			if L == nil {
 				return true
 			}
-			L := p.byLit[lit]
 			for _, cs := range p.calls(L) {
 				if g := p.byObj[cs.Callee.Key]; g != nil && g.Lib {
 					if d := deepest(g, 3); d != nil {
@@ -498,9 +508,26 @@ func resolveRoles(p *Prog) *Roles {
 		r.NodeFactory = r.Completion.Parent
 	}
 	if r.Step != nil {
-		r.DispLoop = r.one("dispatcher goroutine (go-literal calling the step)", dispLits)
+		// a dispatcher whose loop body was extracted ("dispatchPending") is reached through it: keep the outermost
+		var outer []*Func
+		for _, L := range dispLits {
+			inner := false
+			for _, M := range dispLits {
+				if M != L && p.containsCall(M, L.Key) {
+					inner = true
+				}
+			}
+			if !inner {
+				outer = append(outer, L)
+			}
+		}
+		r.DispLoop = r.one("dispatcher goroutine (function started by a go statement that reaches the step)", outer)
 		if r.DispLoop != nil {
 			r.SpawnDisp = r.DispLoop.Parent
+			if r.SpawnDisp == nil {
+				r.SpawnDisp = spawnerOf[r.DispLoop]
+				r.DispGoCall = goCallOf[r.DispLoop]
+			}
 		}
 	}
 	if r.SpawnDisp != nil {
@@ -518,6 +545,25 @@ func resolveRoles(p *Prog) *Roles {
 					if _, isId := ast.Unparen(d.Call.Args[0]).(*ast.Ident); !isId {
 						closed = nil
 					}
+				}
+			}
+		}
+		if closed != nil && r.DispGoCall != nil && r.DispLoop.Type.Params != nil {
+			// the channel is a parameter of the goroutine's function: follow it to the argument of the go statement
+			i := 0
+			var arg ast.Expr
+			for _, fld := range r.DispLoop.Type.Params.List {
+				for _, nm := range fld.Names {
+					if info.ObjectOf(nm) == closed && i < len(r.DispGoCall.Args) {
+						arg = r.DispGoCall.Args[i]
+					}
+					i++
+				}
+			}
+			closed = nil
+			if arg != nil {
+				if id, ok := ast.Unparen(arg).(*ast.Ident); ok {
+					closed = r.SpawnDisp.Info().ObjectOf(id)
 				}
 			}
 		}
@@ -679,21 +725,47 @@ func resolveRoles(p *Prog) *Roles {
 	// field of the worker that the completion callback lowers; the limit is the one TunePool stores
 	wprefix := qualTypeName(r.WorkerT) + "."
 	if r.Completion != nil {
-		for _, cs := range p.calls(r.Completion) {
-			if fk, m := atomicOp(r.Completion.Info(), cs.Call); m == "Add" && strings.HasPrefix(fk, wprefix) && len(cs.Call.Args) == 1 {
-				if tv := r.Completion.Info().Types[cs.Call.Args[0]]; tv.Value == nil || tv.Value.ExactString() != "1" {
-					r.FInflight = fk
+		seenC := map[*Func]bool{}
+		var scan func(f *Func, depth int)
+		scan = func(f *Func, depth int) {
+			if seenC[f] || f.Body == nil {
+				return
+			}
+			seenC[f] = true
+			for _, cs := range p.calls(f) {
+				if fk, m := atomicOp(f.Info(), cs.Call); m == "Add" && strings.HasPrefix(fk, wprefix) && len(cs.Call.Args) == 1 {
+					if tv := f.Info().Types[cs.Call.Args[0]]; tv.Value == nil || tv.Value.ExactString() != "1" {
+						r.FInflight = fk
+					}
+				}
+				if g := p.byObj[cs.Callee.Key]; g != nil && g.Lib && depth > 0 && g.Pkg.PkgPath == modPath {
+					scan(g, depth-1)
 				}
 			}
 		}
+		// the decrement may sit in a helper of the callback (runJob, releaseSlot, ...)
+		scan(r.Completion, 3)
 	}
+	// TunePool may delegate the store to a helper as well
 	for _, f := range p.pkgFuncs(modPath) {
 		if f.Obj != nil && f.Obj.Name() == "TunePool" && f.Decl.Recv != nil {
-			for _, cs := range p.calls(f) {
-				if fk, m := atomicOp(f.Info(), cs.Call); m == "Store" && strings.HasPrefix(fk, wprefix) && fk != r.FStatus {
-					r.FLimit = fk
+			seenT := map[*Func]bool{}
+			var scanT func(g *Func, depth int)
+			scanT = func(g *Func, depth int) {
+				if seenT[g] || g.Body == nil {
+					return
+				}
+				seenT[g] = true
+				for _, cs := range p.calls(g) {
+					if fk, m := atomicOp(g.Info(), cs.Call); m == "Store" && strings.HasPrefix(fk, wprefix) && fk != r.FStatus {
+						r.FLimit = fk
+					}
+					if h := p.byObj[cs.Callee.Key]; h != nil && h.Lib && depth > 0 && h.Pkg.PkgPath == modPath && h.Decl != nil && h.Decl.Recv != nil && !h.Obj.Exported() {
+						scanT(h, depth-1)
+					}
 				}
 			}
+			scanT(f, 2)
 		}
 	}
 	if r.FInflight == "" || r.FLimit == "" {
